@@ -44,57 +44,27 @@ def _yields(fn: ast.FunctionDef) -> list[str]:
 
 
 def accessor_checks(check: Check, repo) -> None:
-    def ob(construct: str, what_ok: str, what_bad: str, ok: bool, detail: dict | None = None) -> None:
-        what = what_ok if ok else what_bad
-        check.oblige("ACCESSOR", f"{PAIRS_REL}::{construct}", what, ok, finding=Finding("ACCESSOR", f"{PAIRS_REL}::{construct}", what_bad, f"{construct}: {what_bad}", detail or {}))
-        check.count("accessor_facts")
+    """ACCESSOR: decided semantically on model trees (sa/pairsem.py); pairs.py is evaluated from its syntax tree."""
+    from ..objmodel import ClassModel
+    from ..pairsem import ACCESSORS
+    from ..pairsem import check as sem_check
 
-    # Pair.tokens
-    y = _yields(repo.func(PAIRS_REL, "Pair.tokens"))
-    ok = (
-        len(y) == 3
-        and y[0].startswith("YIELD Start(") and y[0].endswith(", self.start)")
-        and y[1] == "FOR child in self.children [FROM child.tokens()]"
-        and y[2].startswith("YIELD End(") and y[2].endswith(", self.end)")
-    )
-    ob("Pair.tokens", "yields Start(start), each child's tokens in order, End(end)", "token stream is not Start(start), children in order, End(end)", ok, {"yields": y})
-    # Pairs.tokens
-    y = _yields(repo.func(PAIRS_REL, "Pairs.tokens"))
-    ob("Pairs.tokens", "yields each root pair's tokens in order", "does not yield each root pair's tokens in order", y == ["FOR pair in self._pairs [FROM pair.tokens()]"], {"yields": y})
-    # Pairs.flatten
-    fl = repo.func(PAIRS_REL, "Pairs.flatten")
-    inner = [n for n in fl.body if isinstance(n, ast.FunctionDef)]
-    if len(inner) != 1:
-        raise AnalysisError(f"{PAIRS_REL}::Pairs.flatten: expected one inner generator")
-    yi = _yields(inner[0])
-    arg = inner[0].args.args[0].arg
-    ok = yi == [f"YIELD {arg}", f"FOR child in {arg}.children [FROM {inner[0].name}(child)]"]
-    ob("Pairs.flatten", "pre-order: a pair before its children, children in order", "flatten() is not the pre-order of the tree", ok, {"yields": yi})
-    yo = _yields(fl)
-    ob("Pairs.flatten", "visits every root pair in order", "flatten() does not visit every root pair in order", yo == [f"FOR pair in self._pairs [FROM {inner[0].name}(pair)]"], {"yields": yo})
-    # Pair.__init__ field storage
-    init = repo.func(PAIRS_REL, "Pair.__init__")
-    stores = {}
-    for n in ast.walk(init):
-        if isinstance(n, ast.Assign) and isinstance(n.targets[0], ast.Attribute) and ast.unparse(n.targets[0].value) == "self":
-            stores[n.targets[0].attr] = ast.unparse(n.value)
-    want = {"input": "input_", "start": "start", "end": "end", "rule": "rule", "tag": "tag", "name": "rule.name"}
-    for f, src in want.items():
-        ob("Pair.__init__", f"stores {f} = {src}", f"Pair.{f} is not initialised from {src} (found {stores.get(f)!r})", stores.get(f) == src)
-    ob("Pair.__init__", "stores children (or a fresh list)", f"Pair.children is not initialised from the children argument (found {stores.get('children')!r})", stores.get("children") in ("children or []", "children if children is not None else []", "children"))
-    # text / __str__ / span
-    for meth in ("text", "__str__"):
-        fn = repo.func(PAIRS_REL, f"Pair.{meth}")
-        rets = [ast.unparse(n.value) for n in ast.walk(fn) if isinstance(n, ast.Return) and n.value is not None]
-        ob(f"Pair.{meth}", "is input[start:end]", f"Pair.{meth} is not input[start:end] (returns {rets})", rets == ["self.input[self.start:self.end]"])
-    fn = repo.func(PAIRS_REL, "Pair.span")
-    rets = [ast.unparse(n.value) for n in ast.walk(fn) if isinstance(n, ast.Return) and n.value is not None]
-    ob("Pair.span", "is Span(input, start, end)", f"Pair.span() is not Span(input, start, end) (returns {rets})", rets == ["Span(self.input, self.start, self.end)"])
-    # dump reads the same fields as the tree
-    fn = repo.func(PAIRS_REL, "Pair.dump")
-    src = ast.unparse(fn)
-    for need in ("'start': self.start", "'end': self.end", "self.input[self.start:self.end]", "[child.dump() for child in self.children]"):
-        ob("Pair.dump", f"renders {need}", f"dump() does not render {need}", need in src)
+    cm = ClassModel(repo, PAIRS_REL, PAIRS_REL)
+    for need in ("Pair", "Pairs", "Stream", "Start", "End", "Span"):
+        if need not in cm.classes:
+            raise AnalysisError(f"anchor vanished: {PAIRS_REL}::{need}")
+    n, bad = sem_check(cm, 2)
+    check.count("accessor_model_trees", n)
+    for acc in ACCESSORS:
+        construct = f"{PAIRS_REL}::{acc}"
+        why = bad.get(acc)
+        sig = f"{acc} does not report the tree it is given"
+        check.oblige("ACCESSOR", construct, f"agrees with the reference on all {n} model forests" if why is None else sig, why is None, sample=acc in ("Pair.tokens", "Pairs.flatten"),
+                     finding=Finding("ACCESSOR", construct, sig, f"{sig}: {why}", {"witness": why or ""}))
+        check.count("accessor_facts")
+    unknown = sorted(set(bad) - set(ACCESSORS))
+    if unknown:
+        raise AnalysisError(f"{PAIRS_REL}: mismatch reported for an accessor outside the table: {unknown}")
 
 
 def run(tier: str) -> Check:
@@ -102,7 +72,7 @@ def run(tier: str) -> Check:
     check.rules = ["RULE-PAIR", "RULE", "K2", "R7", "TAGS", "ACCESSOR", "ESCAPE-ACCESSOR"]
     check.assumptions = [
         "text == input[start:end] is definitional; numeric span relations follow from the construction obligations plus position-write discipline (C16/POS) and the trusted primitives",
-        "accessor shape facts are compared with the canonical generator shapes; an equivalent but differently written accessor is reported as ANALYSIS-ERROR only if it cannot be linearised",
+        "accessors are decided on model forests of depth <= 2 and fan-out <= 2 (every local shape of the structural induction step; sa/pairsem.py); dumps()/line_col() are not decided",
     ]
     repo, _ = fill(check, tier, floors={"rule_paths": 200, "rule_skeleton_variants": 24})
     accessor_checks(check, repo)
